@@ -239,16 +239,27 @@ func sameValue(a, b ssa.Value) bool {
 }
 
 func stripTrivial(v ssa.Value) ssa.Value {
+	return stripTrivialSeen(v, map[ssa.Value]bool{})
+}
+
+func stripTrivialSeen(v ssa.Value, seen map[ssa.Value]bool) ssa.Value {
 	for {
+		if seen[v] {
+			return v
+		}
 		switch x := v.(type) {
 		case *ssa.ChangeType:
 			v = x.X
 		case *ssa.Phi:
-			// phi of identical values
+			// phi of identical values (loop phis refer to themselves: visited set)
+			seen[v] = true
 			var first ssa.Value
 			same := true
 			for _, e := range x.Edges {
-				e = stripTrivial(e)
+				e = stripTrivialSeen(e, seen)
+				if e == v {
+					continue
+				}
 				if first == nil {
 					first = e
 				} else if first != e {
